@@ -265,11 +265,19 @@ CountFits(steps) == IF steps = <<>> THEN 0 ELSE (IF Head(steps).op = "fit" THEN 
 
 Cancels(kind, a, b) == IF kind = "NS" THEN TRUE     \* ns o ns = ns: the second application is absorbed
                        ELSE a.fit = b.fit /\ a.dir # b.dir
+\* inv_F o fwd_F = id is an identity on the validity domain (fwd_F picks a pre-image), it may be used anywhere
+\* in a term.  fwd_F o inv_F = id only holds MODULO inv_F for an anamorphosis (inv_F is constant on the
+\* plateaus that ties of the fitted data create: y -> z -> y' with y' # y but inv_F(y') = inv_F(y)); the result
+\* may be compared (in the scale of F) but not substituted under a different transform: the rule is applied
+\* only at the end of a history or when inv_F follows.  PCA / MAF / rotations are bijections: no restriction.
+GaussSideTrip(kind, a, b) == kind \in {"AH", "AE"} /\ a.dir = "inv" /\ b.dir = "fwd"
+CanCancel(kind, a, b, after) == /\ Cancels(kind, a, b)
+                                /\ GaussSideTrip(kind, a, b) => (after = <<>> \/ Head(after) = a)
 RECURSIVE Reduce(_, _, _)
 Reduce(kind, done, rest) ==
   IF rest = <<>> THEN done
   ELSE LET h == Head(rest) IN
-       IF done # <<>> /\ Cancels(kind, done[Len(done)], h)
+       IF done # <<>> /\ CanCancel(kind, done[Len(done)], h, Tail(rest))
        THEN Reduce(kind, IF kind = "NS" THEN done ELSE SubSeq(done, 1, Len(done) - 1), Tail(rest))
        ELSE Reduce(kind, Append(done, h), Tail(rest))
 
